@@ -65,7 +65,17 @@ GPre  == << <<>>, <<97>>, <<97, 64>>, <<49, 97, 50, 98, 51, 99, 52, 100, 45>>, <
             <<49, 50, 51, 52, 53, 54, 55, 56, 57, 48, 64>>, <<65, 98, 67, 100, 69, 102, 71, 104, 61>> >>
 GMid  == << <<49, DOT, 50, DOT, 51, DOT, 52>>, <<49, 48, DOT, 48, DOT, 48, DOT, 50, 53, 53>>, <<50, 53, 54, DOT, 49, DOT, 49, DOT, 49>>,
             <<49, DOT, 50, DOT, 51>>, <<91, 58, 58, 49, 93>>, <<58, 58, 49>>, <<50, 48, 48, 49, 58, 100, 98, 56, 58, 58, 49>>,
-            <<49, 57, 50, DOT, 49, 54, 56, DOT, 49, DOT, 49, DOT, 49>>, <<>> >>
+            <<49, 57, 50, DOT, 49, 54, 56, DOT, 49, DOT, 49, DOT, 49>>, <<>>,
+            \* IPv6-shaped texts with 8 / 9 / 10 groups, "::" followed by 8 or more groups, runs of colons, embedded IPv4
+            <<58, 58, 49, 58, 50, 58, 51, 58, 52, 58, 53, 58, 54, 58, 55, 58, 56, 58, 57>>,
+            <<49, 58, 50, 58, 51, 58, 52, 58, 53, 58, 54, 58, 55, 58, 56>>,
+            <<49, 58, 50, 58, 51, 58, 52, 58, 53, 58, 54, 58, 55, 58, 56, 58, 57>>,
+            <<49, 58, 58, 50, 58, 51, 58, 52, 58, 53, 58, 54, 58, 55, 58, 56>>,
+            <<97, 98, 58, 58, 49, 58, 50, 58, 51, 58, 52, 58, 53, 58, 54, 58, 55, 58, 56>>,
+            <<58, 58, 58, 58, 58, 58, 58, 58, 58, 58>>,
+            <<58, 58, 102, 102, 102, 102, 58, 49, 46, 50, 46, 51, 46, 52>>,
+            <<49, 58, 50, 58, 51, 58, 52, 58, 53, 58, 54, 58, 49, 46, 50, 46, 51, 46, 52>>,
+            <<91, 49, 58, 50, 58, 51, 58, 52, 58, 53, 58, 54, 58, 55, 58, 56, 58, 57, 58, 97, 93>> >>
 GPost == << <<>>, <<64>>, <<45, 49>>, <<64, 104, 111, 115, 116>>, <<DOT, 53>>, <<58, 53, 48, 54, 48>>,
             <<45, 97, 98, 99, 100, 101, 102, 49, 50, 51, 52, 53, 54>>, <<53>>, <<64, 49, DOT, 50, DOT, 51, DOT, 52>> >>
 RECURSIVE Rep(_, _)
